@@ -4,6 +4,7 @@ import Marwood.Vm.Verify
 import Marwood.Vm.ProcInv
 import Marwood.Vm.NoPanicCheck
 import Marwood.Vm.EnvInvCheck
+import Marwood.Vm.InlineCheck
 /-!
 Driver command `simgood`: the executable counterparts of the side conditions `Good` that the heap
 simulation theorems (Lemmas/SimMain.lean, T03.5 / T13.3) assume of every state along a run, evaluated on a
@@ -193,6 +194,16 @@ def noPanicCheck (syn : Bool) (s : St CHeap) : Option String :=
 
 def isSynthetic (info : String) : Bool := (info.splitOn "+syn").length > 1
 
+/-! ## no dereferenced vector in a value position (`Vm/InlineCheck.lean`; `Proofs/C03.lean: vpush_acc_is_pointer`)
+
+An inline `Vector(Rc)` (wire token `Ov`) in `%acc`, a stack slot, a global slot, an environment slot, a vector element,
+a pair field or a continuation's stack copy is not a root path for the collector. Before fix 43d0413 VPUSH left one in
+`%acc` and every `(define v `#(,x))` put it into a global slot; since the fix compiled code never produces one. Not
+evaluated on hand-assembled bytecode (a `MOV Ptr(vector) %acc` dereferences on purpose). -/
+
+def inlineCheck (syn : Bool) (s : St CHeap) : Option String :=
+  if !syn && !noInlineVecB s then some "inline-vector" else none
+
 def handle (args : List String) : Option String :=
   match args with
   | info :: ts => do
@@ -204,6 +215,9 @@ def handle (args : List String) : Option String :=
     pure (match goodCheck s with
       | some e => "bad " ++ e
       | none =>
+        match inlineCheck (isSynthetic info) s with
+        | some e => "bad " ++ e
+        | none =>
         match goodICheck (isSynthetic info) s with
         | some e => "bad " ++ e
         | none =>
